@@ -1,146 +1,142 @@
 /-
-The element tree that the (extended) block parser builds for a document does not depend on the log it starts from
-(`md.references`, the footnote table, the abbreviation table carried over from earlier documents): the processors only
-hand the log to the recursive calls and back, and the three writing processors decide what they build from the block
-alone (`AbbrBlockprocessor` reads the abbreviation table, but only to decide whether there is something to pop).
-Binary analogue of `Lemmas/PipelineXInertLog.lean`.  Core Lean only.
+Two runs of the (extended) block parser on the same blocks from two logs (`md.references`, the footnote table, the
+abbreviation table carried over from earlier documents) that are related by `R`: they build the SAME element tree and
+their final logs are related by `R` again, for every relation `R` that the three writing processors respect
+(`RelStep`): the processors only hand the log to the recursive calls and back; `ReferenceProcessor` and
+`FootnoteBlockProcessor` append an entry computed from the block alone; `AbbrBlockprocessor` reads the abbreviation
+table, but only to decide whether there is something to pop.  Binary analogue of `Lemmas/PipelineXInertLog.lean`.
+
+Instances: `R := True` — the tree does not depend on the log at all (`parseBlocksXT_indep`); `R r1 r2 := r1 = L ++ r2`
+for a carried log `L` without abbreviation entries — the run from `L` writes exactly what the run from the empty log
+writes (`parseBlocksXT_shift`).  Core Lean only.
 -/
 import MdVerif.Lemmas.InstanceXLog
 
 namespace MdVerif.InstanceX
 open Py Block BlockExt
 
-/-- two results of `parseBlocks` with the same tree (and the same definedness) -/
-def EqT (x1 x2 : Option (Node × Refs)) : Prop := x1.map (·.1) = x2.map (·.1)
-/-- two results of a processor with the same tree and the same remaining blocks -/
-def EqR (y1 y2 : Option (Node × Refs × List Str)) : Prop :=
-  y1.map (fun t => (t.1, t.2.2)) = y2.map (fun t => (t.1, t.2.2))
+variable {R : Refs → Refs → Prop}
 
-/-- the recursive-call callback builds the same tree from any two logs -/
-def TreeIndep (pb : PB) : Prop := ∀ st r1 r2 p bl, EqT (pb st r1 p bl) (pb st r2 p bl)
+/-- two results of `parseBlocks`: both undefined, or the same tree with related logs -/
+def EqT (R : Refs → Refs → Prop) (x1 x2 : Option (Node × Refs)) : Prop :=
+  (x1 = none ∧ x2 = none) ∨ ∃ n q1 q2, x1 = some (n, q1) ∧ x2 = some (n, q2) ∧ R q1 q2
+/-- two results of a processor: both undefined, or the same tree, the same remaining blocks and related logs -/
+def EqR (R : Refs → Refs → Prop) (y1 y2 : Option (Node × Refs × List Str)) : Prop :=
+  (y1 = none ∧ y2 = none) ∨ ∃ n q1 q2 bl, y1 = some (n, q1, bl) ∧ y2 = some (n, q2, bl) ∧ R q1 q2
 
-theorem eqr_none : EqR none none := rfl
-theorem eqr_some (n : Node) (r1 r2 : Refs) (rest : List Str) : EqR (some (n, r1, rest)) (some (n, r2, rest)) := rfl
-theorem eqt_some (n : Node) (r1 r2 : Refs) : EqT (some (n, r1)) (some (n, r2)) := rfl
+/-- the recursive-call callback respects `R` -/
+def RelPB (R : Refs → Refs → Prop) (pb : PB) : Prop :=
+  ∀ st r1 r2 p bl, R r1 r2 → EqT R (pb st r1 p bl) (pb st r2 p bl)
 
-theorem eqt_cases {x1 x2 : Option (Node × Refs)} (h : EqT x1 x2) :
-    (x1 = none ∧ x2 = none) ∨ ∃ n r1 r2, x1 = some (n, r1) ∧ x2 = some (n, r2) := by
-  unfold EqT at h
-  cases x1 with
-  | none =>
-    cases x2 with
-    | none => exact Or.inl ⟨rfl, rfl⟩
-    | some p => cases h
-  | some p =>
-    cases x2 with
-    | none => cases h
-    | some q =>
-      obtain ⟨n, r1⟩ := p
-      obtain ⟨m, r2⟩ := q
-      simp only [Option.map_some, Option.some.injEq] at h
-      subst h
-      exact Or.inr ⟨n, r1, r2, rfl, rfl⟩
+theorem eqr_none : EqR R none none := Or.inl ⟨rfl, rfl⟩
+theorem eqr_some {r1 r2 : Refs} (h : R r1 r2) (n : Node) (rest : List Str) :
+    EqR R (some (n, r1, rest)) (some (n, r2, rest)) := Or.inr ⟨n, r1, r2, rest, rfl, rfl, h⟩
+theorem eqt_some {r1 r2 : Refs} (h : R r1 r2) (n : Node) : EqT R (some (n, r1)) (some (n, r2)) :=
+  Or.inr ⟨n, r1, r2, rfl, rfl, h⟩
 
-theorem eqr_of_pair {x1 x2 : Option (Node × Refs)} (f : Node → Node) (rest : List Str) (h : EqT x1 x2) :
-    EqR (match (generalizing := false) x1 with | some (n, r) => some (f n, r, rest) | none => none)
-        (match (generalizing := false) x2 with | some (n, r) => some (f n, r, rest) | none => none) := by
-  rcases eqt_cases h with ⟨e1, e2⟩ | ⟨n, r1, r2, e1, e2⟩ <;> subst e1 e2 <;> rfl
+theorem eqr_of_pair {x1 x2 : Option (Node × Refs)} (f : Node → Node) (rest : List Str) (h : EqT R x1 x2) :
+    EqR R (match (generalizing := false) x1 with | some (n, r) => some (f n, r, rest) | none => none)
+          (match (generalizing := false) x2 with | some (n, r) => some (f n, r, rest) | none => none) := by
+  rcases h with ⟨e1, e2⟩ | ⟨n, q1, q2, e1, e2, hr⟩ <;> subst e1 e2
+  · exact eqr_none
+  · exact eqr_some hr _ _
 
-theorem eqr_bind {x1 x2 : Option (Node × Refs)} (K : Node → Refs → Option (Node × Refs × List Str)) (h : EqT x1 x2)
-    (hK : ∀ n r1 r2, EqR (K n r1) (K n r2)) :
-    EqR (match (generalizing := false) x1 with | none => none | some (n, r) => K n r)
-        (match (generalizing := false) x2 with | none => none | some (n, r) => K n r) := by
-  rcases eqt_cases h with ⟨e1, e2⟩ | ⟨n, r1, r2, e1, e2⟩ <;> subst e1 e2
-  · rfl
-  · exact hK n r1 r2
+theorem eqr_bind {x1 x2 : Option (Node × Refs)} (K : Node → Refs → Option (Node × Refs × List Str)) (h : EqT R x1 x2)
+    (hK : ∀ n r1 r2, R r1 r2 → EqR R (K n r1) (K n r2)) :
+    EqR R (match (generalizing := false) x1 with | none => none | some (n, r) => K n r)
+          (match (generalizing := false) x2 with | none => none | some (n, r) => K n r) := by
+  rcases h with ⟨e1, e2⟩ | ⟨n, q1, q2, e1, e2, hr⟩ <;> subst e1 e2
+  · exact eqr_none
+  · exact hK n q1 q2 hr
 
-theorem eqt_bind {x1 x2 : Option (Node × Refs)} (K : Node → Refs → Option (Node × Refs)) (h : EqT x1 x2)
-    (hK : ∀ n r1 r2, EqT (K n r1) (K n r2)) :
-    EqT (match (generalizing := false) x1 with | some (n, r) => K n r | none => none)
-        (match (generalizing := false) x2 with | some (n, r) => K n r | none => none) := by
-  rcases eqt_cases h with ⟨e1, e2⟩ | ⟨n, r1, r2, e1, e2⟩ <;> subst e1 e2
-  · rfl
-  · exact hK n r1 r2
+theorem eqr_ite {a1 b1 a2 b2 : Option (Node × Refs × List Str)} (c : Prop) [Decidable c] (h1 : c → EqR R a1 a2)
+    (h2 : ¬c → EqR R b1 b2) : EqR R (if c then a1 else b1) (if c then a2 else b2) := by
+  by_cases h : c
+  · rw [if_pos h, if_pos h]; exact h1 h
+  · rw [if_neg h, if_neg h]; exact h2 h
 
-theorem TreeIndep.chunk {pb : PB} (hs : TreeIndep pb) (st : List BState) (r1 r2 : Refs) (p : Node) (text : Str) :
-    EqT (parseChunk pb st r1 p text) (parseChunk pb st r2 p text) := hs _ _ _ _ _
+theorem RelPB.chunk {pb : PB} (hs : RelPB R pb) (st : List BState) {r1 r2 : Refs} (hr : R r1 r2) (p : Node)
+    (text : Str) : EqT R (parseChunk pb st r1 p text) (parseChunk pb st r2 p text) := hs _ _ _ _ _ hr
 
 variable {pb : PB} {tab : Nat} {state : List BState} {r1 r2 : Refs} {parent : Node} {b : Str} {rest : List Str}
 
-theorem hashP_indep (hs : TreeIndep pb) (m : Nat × Nat × Nat × Str) :
-    EqR (hashP tab pb state r1 parent b rest m) (hashP tab pb state r2 parent b rest m) := by
+/-! ### the processors that recurse -/
+
+theorem hashP_rel (hs : RelPB R pb) (hr : R r1 r2) (m : Nat × Nat × Nat × Str) :
+    EqR R (hashP tab pb state r1 parent b rest m) (hashP tab pb state r2 parent b rest m) := by
   obtain ⟨st, en, lv, header⟩ := m
   simp only [hashP]
   by_cases he : (b.take st).isEmpty = true
-  · simp only [he, if_true]; rfl
+  · simp only [he, if_true]; exact eqr_some hr _ _
   · simp only [he, Bool.false_eq_true, if_false]
-    rcases eqt_cases (hs state r1 r2 parent [b.take st]) with ⟨e1, e2⟩ | ⟨n, q1, q2, e1, e2⟩ <;> rw [e1, e2] <;> rfl
+    rcases hs state r1 r2 parent [b.take st] hr with ⟨e1, e2⟩ | ⟨n, q1, q2, e1, e2, hq⟩ <;> rw [e1, e2]
+    · exact eqr_none
+    · exact eqr_some hq _ _
 
-theorem hrP_indep (hs : TreeIndep pb) (m : Nat × Nat) :
-    EqR (hrP pb state r1 parent b rest m) (hrP pb state r2 parent b rest m) := by
+theorem hrP_rel (hs : RelPB R pb) (hr : R r1 r2) (m : Nat × Nat) :
+    EqR R (hrP pb state r1 parent b rest m) (hrP pb state r2 parent b rest m) := by
   obtain ⟨st, en⟩ := m
   simp only [hrP]
   by_cases he : (rstripC '\n' (b.take st)).isEmpty = true
-  · simp only [he, if_true]; rfl
+  · simp only [he, if_true]; exact eqr_some hr _ _
   · simp only [he, Bool.false_eq_true, if_false]
-    rcases eqt_cases (hs state r1 r2 parent [rstripC '\n' (b.take st)]) with ⟨e1, e2⟩ | ⟨n, q1, q2, e1, e2⟩ <;>
-      rw [e1, e2] <;> rfl
+    rcases hs state r1 r2 parent [rstripC '\n' (b.take st)] hr with ⟨e1, e2⟩ | ⟨n, q1, q2, e1, e2, hq⟩ <;> rw [e1, e2]
+    · exact eqr_none
+    · exact eqr_some hq _ _
 
-theorem listItems_indep (hs : TreeIndep pb) (st2 : List BState) :
-    ∀ (items : List Str) (r1 r2 : Refs) (lst : Node),
-      EqT (listItems tab pb st2 r1 lst items) (listItems tab pb st2 r2 lst items) := by
+theorem listItems_rel (hs : RelPB R pb) (st2 : List BState) :
+    ∀ (items : List Str) (r1 r2 : Refs) (lst : Node), R r1 r2 →
+      EqT R (listItems tab pb st2 r1 lst items) (listItems tab pb st2 r2 lst items) := by
   intro items
   induction items with
-  | nil => intro r1 r2 lst; rfl
+  | nil => intro r1 r2 lst hr; exact eqt_some hr _
   | cons item items ih =>
-    intro r1 r2 lst
+    intro r1 r2 lst hr
     simp only [listItems]
     by_cases hi : startsWith item (spaces tab) = true
     · simp only [hi, if_true]
       cases hl : lst.last? with
-      | none => exact ih r1 r2 lst
+      | none => exact ih r1 r2 lst hr
       | some l =>
         simp only []
-        rcases eqt_cases (hs st2 r1 r2 l [item]) with ⟨e1, e2⟩ | ⟨n, q1, q2, e1, e2⟩ <;> rw [e1, e2]
-        · rfl
-        · exact ih q1 q2 _
+        rcases hs st2 r1 r2 l [item] hr with ⟨e1, e2⟩ | ⟨n, q1, q2, e1, e2, hq⟩ <;> rw [e1, e2]
+        · exact Or.inl ⟨rfl, rfl⟩
+        · exact ih q1 q2 _ hq
     · simp only [hi, Bool.false_eq_true, if_false]
-      rcases eqt_cases (hs st2 r1 r2 (Node.el "li") [item]) with ⟨e1, e2⟩ | ⟨n, q1, q2, e1, e2⟩ <;> rw [e1, e2]
-      · rfl
-      · exact ih q1 q2 _
+      rcases hs st2 r1 r2 (Node.el "li") [item] hr with ⟨e1, e2⟩ | ⟨n, q1, q2, e1, e2, hq⟩ <;> rw [e1, e2]
+      · exact Or.inl ⟨rfl, rfl⟩
+      · exact ih q1 q2 _ hq
 
-/-! ### the processors that recurse -/
-
-theorem listPX_indep (hs : TreeIndep pb) (p : ListParams) (tag : String) :
-    EqR (listPX p tab pb state r1 parent b rest tag) (listPX p tab pb state r2 parent b rest tag) := by
+theorem listPX_rel (hs : RelPB R pb) (hr : R r1 r2) (p : ListParams) (tag : String) :
+    EqR R (listPX p tab pb state r1 parent b rest tag) (listPX p tab pb state r2 parent b rest tag) := by
   simp only [listPX]
   split
-  · refine eqr_bind _ (hs _ r1 r2 _ _) ?_
-    intro newli q1 q2
-    exact eqr_of_pair (fun l => parent.setLast l) rest (listItems_indep hs _ _ q1 q2 _)
+  · refine eqr_bind _ (hs _ r1 r2 _ _ hr) ?_
+    intro newli q1 q2 hq
+    exact eqr_of_pair (fun l => parent.setLast l) rest (listItems_rel hs _ _ q1 q2 _ hq)
   · by_cases hl : isListTag parent = true
     · simp only [hl, if_true]
-      exact eqr_of_pair (fun l => l) rest (listItems_indep hs _ _ r1 r2 _)
+      exact eqr_of_pair (fun l => l) rest (listItems_rel hs _ _ r1 r2 _ hr)
     · simp only [hl, Bool.false_eq_true, if_false]
-      exact eqr_of_pair (fun l => parent.append l) rest (listItems_indep hs _ _ r1 r2 _)
+      exact eqr_of_pair (fun l => parent.append l) rest (listItems_rel hs _ _ r1 r2 _ hr)
 
-theorem listP_indep (hs : TreeIndep pb) (tag : String) :
-    EqR (listP tab pb state r1 parent b rest tag) (listP tab pb state r2 parent b rest tag) := by
+theorem listP_rel (hs : RelPB R pb) (hr : R r1 r2) (tag : String) :
+    EqR R (listP tab pb state r1 parent b rest tag) (listP tab pb state r2 parent b rest tag) := by
   rw [← listPX_default, ← listPX_default]
-  exact listPX_indep hs _ tag
+  exact listPX_rel hs hr _ tag
 
-theorem quoteP_indep (hs : TreeIndep pb) (q : Nat) :
-    EqR (quoteP pb state r1 parent b rest q) (quoteP pb state r2 parent b rest q) := by
+theorem quoteP_rel (hs : RelPB R pb) (hr : R r1 r2) (q : Nat) :
+    EqR R (quoteP pb state r1 parent b rest q) (quoteP pb state r2 parent b rest q) := by
   simp only [quoteP]
-  refine eqr_bind _ (hs _ r1 r2 _ _) ?_
-  intro par q1 q2
+  refine eqr_bind _ (hs _ r1 r2 _ _ hr) ?_
+  intro par q1 q2 hq
   split
-  · exact eqr_of_pair (fun l => par.setLast l) rest (hs.chunk _ q1 q2 _ _)
-  · exact eqr_of_pair (fun l => par.append l) rest (hs.chunk _ q1 q2 _ _)
+  · exact eqr_of_pair (fun l => par.setLast l) rest (hs.chunk _ hq _ _)
+  · exact eqr_of_pair (fun l => par.append l) rest (hs.chunk _ hq _ _)
 
-theorem indentPX_indep (hs : TreeIndep pb) (isL isI : Node → Bool) (itemTag : String) :
-    EqR (indentPX isL isI itemTag tab pb state r1 parent b rest)
-        (indentPX isL isI itemTag tab pb state r2 parent b rest) := by
+theorem indentPX_rel (hs : RelPB R pb) (hr : R r1 r2) (isL isI : Node → Bool) (itemTag : String) :
+    EqR R (indentPX isL isI itemTag tab pb state r1 parent b rest)
+          (indentPX isL isI itemTag tab pb state r2 parent b rest) := by
   simp only [indentPX]
   generalize getLevelX isL isI tab state parent b = lv
   obtain ⟨level, steps⟩ := lv
@@ -148,43 +144,43 @@ theorem indentPX_indep (hs : TreeIndep pb) (isL isI : Node → Bool) (itemTag : 
   by_cases h1 : isI parent = true
   · simp only [h1, if_true]
     split
-    · exact eqr_of_pair (fun l => parent.setLast l) rest (hs _ r1 r2 _ _)
-    · exact eqr_of_pair (fun l => l) rest (hs _ r1 r2 _ _)
+    · exact eqr_of_pair (fun l => parent.setLast l) rest (hs _ r1 r2 _ _ hr)
+    · exact eqr_of_pair (fun l => l) rest (hs _ r1 r2 _ _ hr)
   · simp only [h1, Bool.false_eq_true, if_false]
     by_cases h2 : isI (nodeAt steps parent) = true
     · simp only [h2, if_true]
-      exact eqr_of_pair (fun l => updPath (fun _ => l) steps parent) rest (hs _ r1 r2 _ _)
+      exact eqr_of_pair (fun l => updPath (fun _ => l) steps parent) rest (hs _ r1 r2 _ _ hr)
     · simp only [h2, Bool.false_eq_true, if_false]
       split
-      · exact eqr_of_pair (fun l => updPath (fun s => s.setLast l) steps parent) rest (hs.chunk _ r1 r2 _ _)
-      · exact eqr_of_pair (fun l => updPath (fun s => s.append l) steps parent) rest (hs _ r1 r2 _ _)
+      · exact eqr_of_pair (fun l => updPath (fun s => s.setLast l) steps parent) rest (hs.chunk _ hr _ _)
+      · exact eqr_of_pair (fun l => updPath (fun s => s.append l) steps parent) rest (hs _ r1 r2 _ _ hr)
 
-theorem indentP_indep (hs : TreeIndep pb) :
-    EqR (indentP tab pb state r1 parent b rest) (indentP tab pb state r2 parent b rest) := by
+theorem indentP_rel (hs : RelPB R pb) (hr : R r1 r2) :
+    EqR R (indentP tab pb state r1 parent b rest) (indentP tab pb state r2 parent b rest) := by
   rw [← indentPX_core, ← indentPX_core]
-  exact indentPX_indep hs _ _ "li"
+  exact indentPX_rel hs hr _ _ "li"
 
-theorem admonitionP_indep (hs : TreeIndep pb) (hit : AdmHit) :
-    EqR (admonitionP tab pb state r1 parent b rest hit) (admonitionP tab pb state r2 parent b rest hit) := by
+theorem admonitionP_rel (hs : RelPB R pb) (hr : R r1 r2) (hit : AdmHit) :
+    EqR R (admonitionP tab pb state r1 parent b rest hit) (admonitionP tab pb state r2 parent b rest hit) := by
   cases hit with
   | re st en g1 g2 =>
     simp only [admonitionP]
     refine eqr_bind _ ?_ ?_
     · by_cases hst : st > 0
-      · rw [if_pos hst, if_pos hst]; exact hs _ r1 r2 _ _
-      · rw [if_neg hst, if_neg hst]; rfl
-    · intro par q1 q2
-      exact eqr_of_pair (fun l => par.append l) _ (hs.chunk _ q1 q2 _ _)
+      · rw [if_pos hst, if_pos hst]; exact hs _ r1 r2 _ _ hr
+      · rw [if_neg hst, if_neg hst]; exact eqt_some hr _
+    · intro par q1 q2 hq
+      exact eqr_of_pair (fun l => par.append l) _ (hs.chunk _ hq _ _)
   | sib steps indent =>
     simp only [admonitionP]
-    exact eqr_of_pair (fun l => updPath (fun _ => l) steps parent) _ (hs.chunk _ r1 r2 _ _)
+    exact eqr_of_pair (fun l => updPath (fun _ => l) steps parent) _ (hs.chunk _ hr _ _)
 
-/-- two results of `defListP`: both decline, or both answer with the same tree and blocks -/
-def EqRR (z1 z2 : Option (Option (Node × Refs × List Str))) : Prop :=
-  (z1 = none ∧ z2 = none) ∨ ∃ y1 y2, z1 = some y1 ∧ z2 = some y2 ∧ EqR y1 y2
+/-- two results of `defListP`: both decline, or both answer alike -/
+def EqRR (R : Refs → Refs → Prop) (z1 z2 : Option (Option (Node × Refs × List Str))) : Prop :=
+  (z1 = none ∧ z2 = none) ∨ ∃ y1 y2, z1 = some y1 ∧ z2 = some y2 ∧ EqR R y1 y2
 
-theorem defListP_indep (hs : TreeIndep pb) (m : Nat × Nat × Str) :
-    EqRR (defListP tab pb state r1 parent b rest m) (defListP tab pb state r2 parent b rest m) := by
+theorem defListP_rel (hs : RelPB R pb) (hr : R r1 r2) (m : Nat × Nat × Str) :
+    EqRR R (defListP tab pb state r1 parent b rest m) (defListP tab pb state r2 parent b rest m) := by
   obtain ⟨st, en, g2⟩ := m
   simp only [defListP]
   generalize (if defNoIndent (b.drop en) = true then (b.drop en, ([] : Str)) else detab tab (b.drop en)) = dt
@@ -196,64 +192,187 @@ theorem defListP_indep (hs : TreeIndep pb) (m : Nat × Nat × Str) :
     split
     · exact Or.inl ⟨rfl, rfl⟩
     · exact Or.inr ⟨_, _, rfl, rfl, eqr_of_pair (fun dd => parent.append ((addTerms (Node.el "dl") _).append dd)) _
-        (hs _ r1 r2 _ _)⟩
+        (hs _ r1 r2 _ _ hr)⟩
   | some sibling =>
     simp only []
     refine Or.inr ⟨_, _, rfl, rfl, ?_⟩
     split
-    · exact eqr_of_pair (fun dd => Node.setLast _ ((addTerms _ _).append dd)) _ (hs _ r1 r2 _ _)
-    · exact eqr_of_pair (fun dd => Node.append _ ((addTerms (Node.el "dl") _).append dd)) _ (hs _ r1 r2 _ _)
+    · exact eqr_of_pair (fun dd => Node.setLast _ ((addTerms _ _).append dd)) _ (hs _ r1 r2 _ _ hr)
+    · exact eqr_of_pair (fun dd => Node.append _ ((addTerms (Node.el "dl") _).append dd)) _ (hs _ r1 r2 _ _ hr)
 
-/-! ### the processors that do not recurse -/
+/-! ### the processors that do not recurse and do not write -/
 
-theorem emptyP_indep : EqR (some (emptyP r1 parent b rest)) (some (emptyP r2 parent b rest)) := by
+theorem emptyP_rel (hr : R r1 r2) : EqR R (some (emptyP r1 parent b rest)) (some (emptyP r2 parent b rest)) := by
   simp only [emptyP]
   cases parent.last? with
-  | none => rfl
+  | none => exact eqr_some hr _ _
   | some sib =>
     simp only []
-    cases preCode sib <;> rfl
+    cases preCode sib <;> exact eqr_some hr _ _
 
-theorem codeP_indep : EqR (some (codeP tab r1 parent b rest)) (some (codeP tab r2 parent b rest)) := by
+theorem codeP_rel (hr : R r1 r2) : EqR R (some (codeP tab r1 parent b rest)) (some (codeP tab r2 parent b rest)) := by
   simp only [codeP]
   cases parent.last? with
-  | none => rfl
+  | none => exact eqr_some hr _ _
   | some sib =>
     simp only []
-    cases preCode sib <;> rfl
+    cases preCode sib <;> exact eqr_some hr _ _
 
-theorem setextP_indep : EqR (some (setextP r1 parent b rest)) (some (setextP r2 parent b rest)) := rfl
+theorem setextP_rel (hr : R r1 r2) : EqR R (some (setextP r1 parent b rest)) (some (setextP r2 parent b rest)) :=
+  eqr_some hr _ _
 
-theorem tableP_indep (bs : Nat × List Str) :
-    EqR (some (tableP r1 parent b rest bs)) (some (tableP r2 parent b rest bs)) := rfl
+theorem tableP_rel (hr : R r1 r2) (bs : Nat × List Str) :
+    EqR R (some (tableP r1 parent b rest bs)) (some (tableP r2 parent b rest bs)) := eqr_some hr _ _
 
-theorem referenceP_indep (m : Nat × Nat × Str × Str × Option Str × Option Str) :
-    EqR (some (referenceP r1 parent b rest m)) (some (referenceP r2 parent b rest m)) := by
-  obtain ⟨st, en, ident, link, t5, t6⟩ := m
-  rfl
-
-theorem paraP_indep : EqR (some (paraP state r1 parent b rest)) (some (paraP state r2 parent b rest)) := by
+theorem paraP_rel (hr : R r1 r2) : EqR R (some (paraP state r1 parent b rest)) (some (paraP state r2 parent b rest)) := by
   simp only [paraP]
   by_cases h1 : isBlank b = true
-  · simp only [h1, if_true]; rfl
+  · simp only [h1, if_true]; exact eqr_some hr _ _
   · simp only [h1, Bool.false_eq_true, if_false]
     by_cases h2 : isstate state .list = true
     · simp only [h2, if_true]
-      cases parent.last? <;> rfl
-    · simp only [h2, Bool.false_eq_true, if_false]; rfl
-
-variable {cfg : XCfg}
+      cases parent.last? <;> exact eqr_some hr _ _
+    · simp only [h2, Bool.false_eq_true, if_false]; exact eqr_some hr _ _
 
 /-! ### the writing processors, the dispatcher -/
 
-theorem tailRef_indep : EqR (tailRef state r1 parent b rest) (tailRef state r2 parent b rest) := by
+/-- `R` is respected by the three processors that write to the log -/
+structure RelStep (R : Refs → Refs → Prop) (cfg : XCfg) : Prop where
+  /-- `ReferenceProcessor`, `FootnoteBlockProcessor`: the same entry is appended to both logs -/
+  snoc : ∀ {r1 r2 : Refs} (e : Str × (Str × Option Str)), R r1 r2 → R (r1 ++ [e]) (r2 ++ [e])
+  /-- `AbbrBlockprocessor`: both decline, or both answer with the same remaining blocks and related logs -/
+  ab : cfg.abbr = true → ∀ {r1 r2 : Refs} (b : Str) (rest : List Str), R r1 r2 →
+    (abbrP r1 b rest = .declined ∧ abbrP r2 b rest = .declined) ∨
+    ∃ q1 q2 rest', abbrP r1 b rest = .ok (q1, rest') ∧ abbrP r2 b rest = .ok (q2, rest') ∧ R q1 q2
+
+variable {cfg : XCfg}
+
+theorem referenceP_rel (hl : RelStep R cfg) (hr : R r1 r2) (m : Nat × Nat × Str × Str × Option Str × Option Str) :
+    EqR R (some (referenceP r1 parent b rest m)) (some (referenceP r2 parent b rest m)) := by
+  obtain ⟨st, en, ident, link, t5, t6⟩ := m
+  exact eqr_some (hl.snoc _ hr) _ _
+
+theorem tailRef_rel (hl : RelStep R cfg) (hr : R r1 r2) :
+    EqR R (tailRef state r1 parent b rest) (tailRef state r2 parent b rest) := by
   simp only [tailRef]
   split
-  · exact referenceP_indep _
-  · exact paraP_indep
+  · exact referenceP_rel hl hr _
+  · exact paraP_rel hr
 
-/-- what `AbbrBlockprocessor.run` does besides writing to the table does not depend on the table -/
-theorem abbrP_indep :
+theorem tailAbbr_rel (hl : RelStep R cfg) (hr : R r1 r2) :
+    EqR R (tailAbbr cfg state r1 parent b rest) (tailAbbr cfg state r2 parent b rest) := by
+  simp only [tailAbbr]
+  by_cases hc : cfg.abbr = true
+  · simp only [hc, if_true]
+    rcases hl.ab hc b rest hr with ⟨e1, e2⟩ | ⟨q1, q2, rest', e1, e2, hq⟩
+    · rw [e1, e2]; exact tailRef_rel hl hr
+    · rw [e1, e2]; exact eqr_some hq _ _
+  · simp only [hc, Bool.false_eq_true, if_false]; exact tailRef_rel hl hr
+
+theorem footnoteP_rel (hl : RelStep R cfg) (hr : R r1 r2) :
+    (footnoteP r1 b rest = none ∧ footnoteP r2 b rest = none) ∨
+    ∃ q1 q2 rest', footnoteP r1 b rest = some (q1, rest') ∧ footnoteP r2 b rest = some (q2, rest') ∧ R q1 q2 := by
+  simp only [footnoteP]
+  split
+  · exact Or.inl ⟨rfl, rfl⟩
+  · exact Or.inr ⟨_, _, _, rfl, rfl, hl.snoc _ hr⟩
+
+theorem tailFootnote_rel (hl : RelStep R cfg) (hr : R r1 r2) :
+    EqR R (tailFootnote cfg state r1 parent b rest) (tailFootnote cfg state r2 parent b rest) := by
+  simp only [tailFootnote]
+  by_cases hc : cfg.footnotes = true
+  · simp only [hc, if_true]
+    rcases footnoteP_rel (b := b) (rest := rest) hl hr with ⟨e1, e2⟩ | ⟨q1, q2, rest', e1, e2, hq⟩
+    · rw [e1, e2]; exact tailAbbr_rel hl hr
+    · rw [e1, e2]; exact eqr_some hq _ _
+  · simp only [hc, Bool.false_eq_true, if_false]; exact tailAbbr_rel hl hr
+
+theorem tailQuote_rel (hl : RelStep R cfg) (hs : RelPB R pb) (hr : R r1 r2) :
+    EqR R (tailQuote cfg pb state r1 parent b rest) (tailQuote cfg pb state r2 parent b rest) := by
+  simp only [tailQuote]
+  split
+  · exact quoteP_rel hs hr _
+  · exact tailFootnote_rel hl hr
+
+theorem tailDef_rel (hl : RelStep R cfg) (hs : RelPB R pb) (hr : R r1 r2) :
+    EqR R (tailDef cfg tab pb state r1 parent b rest) (tailDef cfg tab pb state r2 parent b rest) := by
+  simp only [tailDef]
+  by_cases hc : cfg.defList = true
+  · simp only [hc, if_true]
+    cases hm : defSearch b with
+    | none => exact tailQuote_rel hl hs hr
+    | some m =>
+      simp only []
+      rcases defListP_rel (tab := tab) (state := state) (parent := parent) (b := b) (rest := rest) hs hr m with
+        ⟨e1, e2⟩ | ⟨y1, y2, e1, e2, h⟩
+      · rw [e1, e2]; exact tailQuote_rel hl hs hr
+      · rw [e1, e2]; exact h
+  · simp only [hc, Bool.false_eq_true, if_false]; exact tailQuote_rel hl hs hr
+
+theorem tailList_rel (hl : RelStep R cfg) (hs : RelPB R pb) (hr : R r1 r2) :
+    EqR R (tailList cfg tab pb state r1 parent b rest) (tailList cfg tab pb state r2 parent b rest) := by
+  simp only [tailList]
+  by_cases h1 : (listItemMatch tab true false b).isSome = true
+  · simp only [h1, if_true]
+    by_cases hc : cfg.saneLists = true
+    · simp only [hc, if_true]; exact listPX_rel hs hr _ "ol"
+    · simp only [hc, Bool.false_eq_true, if_false]; exact listP_rel hs hr "ol"
+  · simp only [h1, Bool.false_eq_true, if_false]
+    by_cases h2 : (listItemMatch tab false true b).isSome = true
+    · simp only [h2, if_true]
+      by_cases hc : cfg.saneLists = true
+      · simp only [hc, if_true]; exact listPX_rel hs hr _ "ul"
+      · simp only [hc, Bool.false_eq_true, if_false]; exact listP_rel hs hr "ul"
+    · simp only [h2, Bool.false_eq_true, if_false]; exact tailDef_rel hl hs hr
+
+theorem tailEmptyT_rel (tables : Bool) (hl : RelStep R cfg) (hs : RelPB R pb) (hr : R r1 r2) :
+    EqR R (tailEmptyT tables cfg tab pb state r1 parent b rest) (tailEmptyT tables cfg tab pb state r2 parent b rest) := by
+  simp only [tailEmptyT]
+  refine eqr_ite _ (fun _ => emptyP_rel hr) (fun _ => ?_)
+  refine eqr_ite _ (fun _ => indentP_rel hs hr) (fun _ => ?_)
+  refine eqr_ite _ (fun _ => indentPX_rel hs hr _ _ "dd") (fun _ => ?_)
+  refine eqr_ite _ (fun _ => codeP_rel hr) (fun _ => ?_)
+  split
+  · exact tableP_rel hr _
+  · split
+    · exact hashP_rel hs hr _
+    · refine eqr_ite _ (fun _ => setextP_rel hr) (fun _ => ?_)
+      split
+      · exact hrP_rel hs hr _
+      · exact tailList_rel hl hs hr
+
+theorem dispatchXT_rel (tables : Bool) (hl : RelStep R cfg) (hs : RelPB R pb) (hr : R r1 r2) :
+    EqR R (dispatchXT tables cfg tab pb state r1 parent b rest) (dispatchXT tables cfg tab pb state r2 parent b rest) := by
+  simp only [dispatchXT]
+  split
+  · exact admonitionP_rel hs hr _
+  · exact tailEmptyT_rel tables hl hs hr
+
+/-- **`parseBlocks` respects every relation that the writing processors respect** -/
+theorem parseBlocksXT_rel (tables : Bool) (cfg : XCfg) (tab : Nat) (hl : RelStep R cfg) :
+    ∀ fuel, RelPB R (parseBlocksXT tables cfg tab fuel) := by
+  intro fuel
+  induction fuel with
+  | zero =>
+    intro st q1 q2 p bl hr
+    cases bl with
+    | nil => exact eqt_some hr _
+    | cons b rest => exact Or.inl ⟨rfl, rfl⟩
+  | succ f ih =>
+    intro st q1 q2 p bl
+    induction bl generalizing q1 q2 p with
+    | nil => intro hr; exact eqt_some hr _
+    | cons b rest _ =>
+      intro hr
+      simp only [parseBlocksXT]
+      rcases dispatchXT_rel (tab := tab) (state := st) (parent := p) (b := b) (rest := rest) tables hl ih hr with
+        ⟨e1, e2⟩ | ⟨n, s1, s2, bl', e1, e2, hq⟩
+      · rw [e1, e2]; exact Or.inl ⟨rfl, rfl⟩
+      · rw [e1, e2]; exact ih st s1 s2 n bl' hq
+
+/-! ### instance 1: the tree does not depend on the log -/
+
+theorem abbrP_cases (r1 r2 : Refs) (b : Str) (rest : List Str) :
     (abbrP r1 b rest = .declined ∧ abbrP r2 b rest = .declined) ∨
     ∃ q1 q2 rest', abbrP r1 b rest = .ok (q1, rest') ∧ abbrP r2 b rest = .ok (q2, rest') := by
   simp only [abbrP]
@@ -265,145 +384,78 @@ theorem abbrP_indep :
       repeat' split
       all_goals exact ⟨_, _, _, rfl, rfl⟩
 
-theorem tailAbbr_indep : EqR (tailAbbr cfg state r1 parent b rest) (tailAbbr cfg state r2 parent b rest) := by
-  simp only [tailAbbr]
-  by_cases hc : cfg.abbr = true
-  · simp only [hc, if_true]
-    rcases abbrP_indep (r1 := r1) (r2 := r2) (b := b) (rest := rest) with ⟨e1, e2⟩ | ⟨q1, q2, rest', e1, e2⟩
-    · rw [e1, e2]; exact tailRef_indep
-    · rw [e1, e2]; rfl
-  · simp only [hc, Bool.false_eq_true, if_false]; exact tailRef_indep
-
-theorem footnoteP_indep :
-    (footnoteP r1 b rest = none ∧ footnoteP r2 b rest = none) ∨
-    ∃ q1 q2 rest', footnoteP r1 b rest = some (q1, rest') ∧ footnoteP r2 b rest = some (q2, rest') := by
-  simp only [footnoteP]
-  split
-  · exact Or.inl ⟨rfl, rfl⟩
-  · exact Or.inr ⟨_, _, _, rfl, rfl⟩
-
-theorem tailFootnote_indep :
-    EqR (tailFootnote cfg state r1 parent b rest) (tailFootnote cfg state r2 parent b rest) := by
-  simp only [tailFootnote]
-  by_cases hc : cfg.footnotes = true
-  · simp only [hc, if_true]
-    rcases footnoteP_indep (r1 := r1) (r2 := r2) (b := b) (rest := rest) with ⟨e1, e2⟩ | ⟨q1, q2, rest', e1, e2⟩
-    · rw [e1, e2]; exact tailAbbr_indep
-    · rw [e1, e2]; rfl
-  · simp only [hc, Bool.false_eq_true, if_false]; exact tailAbbr_indep
-
-theorem tailQuote_indep (hs : TreeIndep pb) :
-    EqR (tailQuote cfg pb state r1 parent b rest) (tailQuote cfg pb state r2 parent b rest) := by
-  simp only [tailQuote]
-  split
-  · exact quoteP_indep hs _
-  · exact tailFootnote_indep
-
-theorem tailDef_indep (hs : TreeIndep pb) :
-    EqR (tailDef cfg tab pb state r1 parent b rest) (tailDef cfg tab pb state r2 parent b rest) := by
-  simp only [tailDef]
-  by_cases hc : cfg.defList = true
-  · simp only [hc, if_true]
-    cases hm : defSearch b with
-    | none => exact tailQuote_indep hs
-    | some m =>
-      simp only []
-      rcases defListP_indep (tab := tab) (state := state) (r1 := r1) (r2 := r2) (parent := parent) (b := b)
-        (rest := rest) hs m with ⟨e1, e2⟩ | ⟨y1, y2, e1, e2, h⟩
-      · rw [e1, e2]; exact tailQuote_indep hs
-      · rw [e1, e2]; exact h
-  · simp only [hc, Bool.false_eq_true, if_false]; exact tailQuote_indep hs
-
-theorem tailList_indep (hs : TreeIndep pb) :
-    EqR (tailList cfg tab pb state r1 parent b rest) (tailList cfg tab pb state r2 parent b rest) := by
-  simp only [tailList]
-  by_cases h1 : (listItemMatch tab true false b).isSome = true
-  · simp only [h1, if_true]
-    by_cases hc : cfg.saneLists = true
-    · simp only [hc, if_true]; exact listPX_indep hs _ "ol"
-    · simp only [hc, Bool.false_eq_true, if_false]; exact listP_indep hs "ol"
-  · simp only [h1, Bool.false_eq_true, if_false]
-    by_cases h2 : (listItemMatch tab false true b).isSome = true
-    · simp only [h2, if_true]
-      by_cases hc : cfg.saneLists = true
-      · simp only [hc, if_true]; exact listPX_indep hs _ "ul"
-      · simp only [hc, Bool.false_eq_true, if_false]; exact listP_indep hs "ul"
-    · simp only [h2, Bool.false_eq_true, if_false]; exact tailDef_indep hs
-
-theorem eqr_ite {a1 b1 a2 b2 : Option (Node × Refs × List Str)} (c : Prop) [Decidable c] (h1 : c → EqR a1 a2)
-    (h2 : ¬c → EqR b1 b2) : EqR (if c then a1 else b1) (if c then a2 else b2) := by
-  by_cases h : c
-  · rw [if_pos h, if_pos h]; exact h1 h
-  · rw [if_neg h, if_neg h]; exact h2 h
-
-theorem tailEmptyT_indep (tables : Bool) (hs : TreeIndep pb) :
-    EqR (tailEmptyT tables cfg tab pb state r1 parent b rest) (tailEmptyT tables cfg tab pb state r2 parent b rest) := by
-  simp only [tailEmptyT]
-  refine eqr_ite _ (fun _ => emptyP_indep) (fun _ => ?_)
-  refine eqr_ite _ (fun _ => indentP_indep hs) (fun _ => ?_)
-  refine eqr_ite _ (fun _ => indentPX_indep hs _ _ "dd") (fun _ => ?_)
-  refine eqr_ite _ (fun _ => codeP_indep) (fun _ => ?_)
-  split
-  · exact tableP_indep _
-  · split
-    · exact hashP_indep hs _
-    · refine eqr_ite _ (fun _ => setextP_indep) (fun _ => ?_)
-      split
-      · exact hrP_indep hs _
-      · exact tailList_indep hs
-
-theorem dispatchXT_indep (tables : Bool) (hs : TreeIndep pb) :
-    EqR (dispatchXT tables cfg tab pb state r1 parent b rest) (dispatchXT tables cfg tab pb state r2 parent b rest) := by
-  simp only [dispatchXT]
-  split
-  · exact admonitionP_indep hs _
-  · exact tailEmptyT_indep tables hs
-
-theorem eqr_cases {y1 y2 : Option (Node × Refs × List Str)} (h : EqR y1 y2) :
-    (y1 = none ∧ y2 = none) ∨ ∃ n q1 q2 bl, y1 = some (n, q1, bl) ∧ y2 = some (n, q2, bl) := by
-  unfold EqR at h
-  cases y1 with
-  | none =>
-    cases y2 with
-    | none => exact Or.inl ⟨rfl, rfl⟩
-    | some p => cases h
-  | some p =>
-    cases y2 with
-    | none => cases h
-    | some q =>
-      obtain ⟨n, q1, bl⟩ := p
-      obtain ⟨m, q2, bl2⟩ := q
-      simp only [Option.map_some, Option.some.injEq, Prod.mk.injEq] at h
-      obtain ⟨h1, h2⟩ := h
-      subst h1 h2
-      exact Or.inr ⟨n, q1, q2, bl, rfl, rfl⟩
+theorem relStep_true (cfg : XCfg) : RelStep (fun _ _ => True) cfg where
+  snoc := fun _ _ => trivial
+  ab := by
+    intro _ r1 r2 b rest _
+    rcases abbrP_cases r1 r2 b rest with h | ⟨q1, q2, rest', e1, e2⟩
+    · exact Or.inl h
+    · exact Or.inr ⟨q1, q2, rest', e1, e2, trivial⟩
 
 /-- **the tree that `parseBlocks` builds does not depend on the log it starts from** -/
-theorem parseBlocksXT_indep (tables : Bool) (cfg : XCfg) (tab : Nat) :
-    ∀ fuel, TreeIndep (parseBlocksXT tables cfg tab fuel) := by
-  intro fuel
-  induction fuel with
-  | zero =>
-    intro st q1 q2 p bl
-    cases bl with
-    | nil => rfl
-    | cons b rest => rfl
-  | succ f ih =>
-    intro st q1 q2 p bl
-    induction bl generalizing q1 q2 p with
-    | nil => rfl
-    | cons b rest _ =>
-      simp only [parseBlocksXT]
-      rcases eqr_cases (dispatchXT_indep (cfg := cfg) (tab := tab) (state := st) (r1 := q1) (r2 := q2) (parent := p)
-        (b := b) (rest := rest) tables ih) with ⟨e1, e2⟩ | ⟨n, s1, s2, bl', e1, e2⟩
-      · rw [e1, e2]; rfl
-      · rw [e1, e2]; exact ih st s1 s2 n bl'
-
+theorem parseBlocksXT_indep (tables : Bool) (cfg : XCfg) (tab fuel : Nat) (st : List BState) (r1 r2 : Refs) (p : Node)
+    (bl : List Str) :
+    (parseBlocksXT tables cfg tab fuel st r1 p bl).map (·.1) = (parseBlocksXT tables cfg tab fuel st r2 p bl).map (·.1) := by
+  rcases parseBlocksXT_rel tables cfg tab (relStep_true cfg) fuel st r1 r2 p bl trivial with
+    ⟨e1, e2⟩ | ⟨n, q1, q2, e1, e2, _⟩ <;> rw [e1, e2] <;> rfl
 
 /-- `parser.parseDocument` from two carried logs: the same tree -/
 theorem docParseS_indep (x : PipelineX.Exts) (cfg : Pipeline.Cfg) (L1 L2 : Refs) (text : Str) :
     (docParseS x cfg L1 text).map (·.1) = (docParseS x cfg L2 text).map (·.1) :=
-  (parseBlocksXT_indep x.tables x.blockCfg cfg.tab _).chunk [] L1 L2 _ text
+  parseBlocksXT_indep x.tables x.blockCfg cfg.tab _ [] L1 L2 _ _
+
+/-! ### instance 2: the run from a carried log writes what the run from the empty log writes -/
+
+theorem abbrsOf_append_noAb (L r : Refs) (hL : ∀ e ∈ L, isAbEntry e = false) : abbrsOf (L ++ r) = abbrsOf r := by
+  have h0 : ∀ (d : List (Str × Str)), L.foldl (fun d e =>
+      if isAbEntry e then (if e.2.1.isEmpty then dictPop d (e.1.drop 2) else dictSet d (e.1.drop 2) e.2.1) else d) d = d := by
+    induction L with
+    | nil => intro d; rfl
+    | cons e L ih =>
+      intro d
+      simp only [List.foldl_cons, hL e (List.mem_cons_self), Bool.false_eq_true, if_false]
+      exact ih (fun e' he' => hL e' (List.mem_cons_of_mem _ he')) d
+  simp only [abbrsOf, List.foldl_append, h0]
+
+theorem relStep_shift (cfg : XCfg) (L : Refs) (hL : cfg.abbr = true → ∀ e ∈ L, isAbEntry e = false) :
+    RelStep (fun r1 r2 => r1 = L ++ r2) cfg where
+  snoc := by
+    intro r1 r2 e h
+    rw [h, List.append_assoc]
+  ab := by
+    intro hc r1 r2 b rest h
+    subst h
+    simp only [abbrP, abbrsOf_append_noAb L r2 (hL hc)]
+    split
+    · exact Or.inl ⟨rfl, rfl⟩
+    · split
+      · exact Or.inl ⟨rfl, rfl⟩
+      · refine Or.inr ?_
+        split
+        · split
+          · exact ⟨_, _, _, rfl, rfl, by rw [List.append_assoc]⟩
+          · exact ⟨_, _, _, rfl, rfl, rfl⟩
+        · exact ⟨_, _, _, rfl, rfl, by rw [List.append_assoc]⟩
+
+/-- **the run of `parseBlocks` from the log `L ++ r` is the run from `r`, with `L` in front of the final log**
+    (`L` without abbreviation entries when `abbr` is enabled: a pop looks at the table) -/
+theorem parseBlocksXT_shift (tables : Bool) (cfg : XCfg) (tab fuel : Nat) (L : Refs)
+    (hL : cfg.abbr = true → ∀ e ∈ L, isAbEntry e = false) (st : List BState) (r : Refs) (p : Node) (bl : List Str) :
+    parseBlocksXT tables cfg tab fuel st (L ++ r) p bl =
+      (parseBlocksXT tables cfg tab fuel st r p bl).map (fun q => (q.1, L ++ q.2)) := by
+  rcases parseBlocksXT_rel tables cfg tab (relStep_shift cfg L hL) fuel st (L ++ r) r p bl rfl with
+    ⟨e1, e2⟩ | ⟨n, q1, q2, e1, e2, hq⟩
+  · rw [e1, e2]; rfl
+  · rw [e1, e2, hq]; rfl
+
+/-- `parser.parseDocument` from a carried log `L`: the tree and the writes of the run from the empty log -/
+theorem docParseS_shift (x : PipelineX.Exts) (cfg : Pipeline.Cfg) (L : Refs)
+    (hL : x.abbr = true → ∀ e ∈ L, isAbEntry e = false) (text : Str) :
+    docParseS x cfg L text = (docParseS x cfg [] text).map (fun q => (q.1, L ++ q.2)) := by
+  have := parseBlocksXT_shift x.tables x.blockCfg cfg.tab (fuelForX text.length) L hL [] [] (Node.el "div")
+    (splitS ['\n', '\n'] text)
+  rw [List.append_nil] at this
+  exact this
 
 /-- without fenced code the preprocessors do not look at the stash -/
 theorem prepareS_nofence (x : PipelineX.Exts) (cfg : Pipeline.Cfg) (html : List Str) (src : Str)
@@ -412,5 +464,94 @@ theorem prepareS_nofence (x : PipelineX.Exts) (cfg : Pipeline.Cfg) (html : List 
       if (x.admonition && PipelineX.admNonAscii (Normalize.normalize cfg.tab src)) = true then .ood
       else .ok (Extract.extract (Normalize.normalize cfg.tab src), html) := by
   simp only [prepareS, hf, Bool.false_eq_true, if_false]
+
+/-! ### the log after a conversion without the footnotes extension -/
+
+/-- without footnotes the stages after the block parser do not write to the tables -/
+theorem lateS_log_eq {x : PipelineX.Exts} {cfg : Pipeline.Cfg} {st st' : MdSt} {stash : List Str} {root u : Node}
+    {log : Refs} (hfn : x.footnotes = false) (h : lateS x cfg st stash root log = .ok u st') : st'.log = log := by
+  unfold lateS at h
+  simp only [hfn, Bool.false_eq_true, if_false] at h
+  generalize InlineX.runLoopX _ _ _ _ _ _ = rl at h
+  cases rl with
+  | none => cases h
+  | some p =>
+    obtain ⟨t, xs⟩ := p
+    simp only [] at h
+    generalize (if x.toc = true then TocTree.run _ _ _ else TocTree.R.ok _) = ts at h
+    cases ts with
+    | oof => cases h
+    | err => cases h
+    | ood => cases h
+    | ok t =>
+      simp only [] at h
+      cases hu : TreeProc.unescapeTree t with
+      | none => rw [hu] at h; cases h
+      | some u' =>
+        rw [hu] at h
+        injection h with _ h
+        rw [← h]
+
+/-- the table writes of the block parser for the document `src` on an instance without carried tables (and without
+    `fenced_code`: no placeholders in the text): `[]` when the preprocessors or the parser do not answer -/
+def docWrites (x : PipelineX.Exts) (cfg : Pipeline.Cfg) (src : Str) : Refs :=
+  match prepareS x cfg [] src with
+  | .ok (text, _) => ((docParseS x cfg [] text).map (·.2)).getD []
+  | _ => []
+
+theorem treeS_log_exact {x : PipelineX.Exts} {cfg : Pipeline.Cfg} {st st' : MdSt} {src : Str} {u : Node}
+    (hfn : x.footnotes = false) (hfc : x.fencedCode = false)
+    (hL : x.abbr = true → ∀ e ∈ st.log, isAbEntry e = false)
+    (h : treeS x cfg st src = .ok u st') : st'.log = st.log ++ docWrites x cfg src := by
+  rw [treeS_stages, prepareS_nofence x cfg _ src hfc] at h
+  simp only [docWrites, prepareS_nofence x cfg _ src hfc]
+  by_cases hc : (x.admonition && PipelineX.admNonAscii (Normalize.normalize cfg.tab src)) = true
+  · simp only [hc, if_true] at h; cases h
+  · simp only [hc, Bool.false_eq_true, if_false] at h ⊢
+    rw [docParseS_shift x cfg st.log hL] at h
+    cases hd : docParseS x cfg [] (Extract.extract (Normalize.normalize cfg.tab src)) with
+    | none => rw [hd] at h; cases h
+    | some q =>
+      obtain ⟨root, w⟩ := q
+      rw [hd] at h
+      simp only [Option.map_some, Option.getD_some] at h ⊢
+      exact lateS_log_eq hfn h
+
+/-- a non-blank document that leaves a tracked state went through `treeS` -/
+theorem convertS_tracked_tree (x : PipelineX.Exts) (cfg : Pipeline.Cfg) (st : MdSt) (src : Str)
+    (hnb : Normalize.isBlankDoc src = false) (hok : (convertS x cfg st src).2.valid = true) :
+    ∃ u, treeS x cfg st src = .ok u (convertS x cfg st src).2 := by
+  unfold convertS at hok ⊢
+  cases hv : st.valid with
+  | false => simp [hv] at hok
+  | true =>
+    simp only [hv, Bool.not_true, Bool.false_eq_true, if_false] at hok ⊢
+    simp only [List.contains_iff_mem] at hok ⊢
+    by_cases h1 : '<' ∈ src
+    · simp [h1, MdSt.invalid] at hok
+    · simp only [h1, if_false] at hok ⊢
+      by_cases h2 : x.unsupported = true
+      · simp [h2, MdSt.invalid] at hok
+      · simp only [h2, hnb, Bool.false_eq_true, if_false] at hok ⊢
+        cases ht : treeS x cfg st src with
+        | oof => simp [ht, MdSt.invalid] at hok
+        | err => simp [ht, MdSt.invalid] at hok
+        | ood => simp [ht, MdSt.invalid] at hok
+        | ok u st' =>
+          simp only [ht] at hok ⊢
+          cases hf : PipelineX.finishX x cfg st'.html (Ser.serialize cfg.fmt u) with
+          | ok out => exact ⟨u, rfl⟩
+          | oof => simp [hf, MdSt.invalid] at hok
+          | err => simp [hf, MdSt.invalid] at hok
+          | ood => simp [hf, MdSt.invalid] at hok
+
+theorem convertS_log_exact (x : PipelineX.Exts) (cfg : Pipeline.Cfg) (st : MdSt) (src : Str)
+    (hfn : x.footnotes = false) (hfc : x.fencedCode = false)
+    (hL : x.abbr = true → ∀ e ∈ st.log, isAbEntry e = false)
+    (hnb : Normalize.isBlankDoc src = false)
+    (hok : (convertS x cfg st src).2.valid = true) :
+    (convertS x cfg st src).2.log = st.log ++ docWrites x cfg src := by
+  obtain ⟨u, hu⟩ := convertS_tracked_tree x cfg st src hnb hok
+  exact treeS_log_exact hfn hfc hL hu
 
 end MdVerif.InstanceX
